@@ -200,7 +200,12 @@ class FakeOSSocket:
             raise (f.exc or ConnectionResetError(104, "Connection reset by peer"))
         if self.peer_closed:
             raise BrokenPipeError(32, "Broken pipe")
+        if self.timeout == 0 and getattr(self, "_nb_send_partial", False):
+            # non-blocking socket whose previous send() was cut short (buffer full): nothing is waited for
+            self._nb_send_partial = False
+            raise BlockingIOError(11, "Resource temporarily unavailable")
         n = self.net.schedule.send_accept(self, len(data))
+        self._nb_send_partial = n < len(data)
         self.net.send_calls.append(data)
         self.sent_total += n
         if self.conn is not None:
@@ -236,8 +241,15 @@ class FakeOSSocket:
         if not self.rx:
             if self.peer_closed:
                 return b""
+            if self.timeout == 0:
+                raise BlockingIOError(11, "Resource temporarily unavailable")
             raise _real.timeout("timed out")
         n = self.net.schedule.recv_size(self, bufsize, len(self.rx))
+        if self.timeout == 0 and n < len(self.rx) and getattr(self, "_nb_recv_taken", False):
+            # non-blocking socket: the segment the previous recv() returned was all that had arrived; the next one is not waited for
+            self._nb_recv_taken = False
+            raise BlockingIOError(11, "Resource temporarily unavailable")
+        self._nb_recv_taken = n < len(self.rx)
         out = bytes(self.rx[:n])
         del self.rx[:n]
         if not self.rx and self.on_drained is not None:
